@@ -238,44 +238,5 @@ fn splice_h<T: 'static>(typed: bool, drop: bool, how: usize, fixed: bool, misrep
     core::mem::forget(v);
 }
 
-fn mk_e8() -> E8 { E8(0) }
-fn mk_e3() -> E3 { E3([0; 3]) }
-fn mk_e16() -> E16 { E16([0; 16]) }
-fn mk_e12() -> E12 { E12([0; 3]) }
-fn mk_e24() -> E24 { E24([0; 3]) }
-fn mk_z0() -> Z0 { Z0 }
 
-h!(drain_erased_e8, drain_h::<E8>(false, true, DROP));
-h!(drain_erased_e1, drain_h::<E1>(false, true, DROP));
-h!(drain_erased_e16, drain_h::<E16>(false, false, DROP));
-h!(drain_erased_z0, drain_h::<Z0>(false, true, DROP));
-h!(drain_erased_e3, drain_h::<E3>(false, true, DROP));
-h!(drain_erased_e12, drain_h::<E12>(false, true, DROP));
-h!(drain_erased_e24, drain_h::<E24>(false, true, DROP));
-h!(drain_erased_e160, drain_h::<E160>(false, true, DROP));
-h!(drain_typed_e8, drain_h::<E8>(true, false, DROP));
-h!(drain_typed_e16, drain_h::<E16>(true, false, DROP));
-h!(drain_typed_e12, drain_h::<E12>(true, false, DROP));
-h!(drain_forget_e8, drain_h::<E8>(false, true, FORGET));
-h!(drain_typed_forget_e8, drain_h::<E8>(true, false, FORGET));
-
-macro_rules! splice_k {
-    ($n0:ident, $n1:ident, $n2:ident, $n3:ident, $t:ty, $typed:expr, $drop:expr, $how:expr, $fixed:expr, $mis:expr, $mk:expr) => {
-        h!(#[kani::unwind(5)] $n0, splice_h::<$t>($typed, $drop, $how, $fixed, $mis, 0, $mk));
-        h!(#[kani::unwind(5)] $n1, splice_h::<$t>($typed, $drop, $how, $fixed, $mis, 1, $mk));
-        h!(#[kani::unwind(5)] $n2, splice_h::<$t>($typed, $drop, $how, $fixed, $mis, 2, $mk));
-        h!(#[kani::unwind(5)] $n3, splice_h::<$t>($typed, $drop, $how, $fixed, $mis, 3, $mk));
-    };
-}
-splice_k!(splice_erased_e8_k0, splice_erased_e8_k1, splice_erased_e8_k2, splice_erased_e8_k3, E8, false, true, DROP, false, false, mk_e8);
-splice_k!(splice_erased_e16_k0, splice_erased_e16_k1, splice_erased_e16_k2, splice_erased_e16_k3, E16, false, false, DROP, false, false, mk_e16);
-splice_k!(splice_erased_e3_k0, splice_erased_e3_k1, splice_erased_e3_k2, splice_erased_e3_k3, E3, false, true, DROP, false, false, mk_e3);
-splice_k!(splice_erased_e12_k0, splice_erased_e12_k1, splice_erased_e12_k2, splice_erased_e12_k3, E12, false, true, DROP, false, false, mk_e12);
-splice_k!(splice_erased_z0_k0, splice_erased_z0_k1, splice_erased_z0_k2, splice_erased_z0_k3, Z0, false, true, DROP, false, false, mk_z0);
-splice_k!(splice_typed_e8_k0, splice_typed_e8_k1, splice_typed_e8_k2, splice_typed_e8_k3, E8, true, false, DROP, false, false, mk_e8);
-splice_k!(splice_typed_e24_k0, splice_typed_e24_k1, splice_typed_e24_k2, splice_typed_e24_k3, E24, true, false, DROP, false, false, mk_e24);
-splice_k!(splice_fixed_e8_k0, splice_fixed_e8_k1, splice_fixed_e8_k2, splice_fixed_e8_k3, E8, false, true, DROP, true, false, mk_e8);
-splice_k!(splice_misreport_e8_k0, splice_misreport_e8_k1, splice_misreport_e8_k2, splice_misreport_e8_k3, E8, false, true, DROP, false, true, mk_e8);
-splice_k!(splice_typed_misreport_e8_k0, splice_typed_misreport_e8_k1, splice_typed_misreport_e8_k2, splice_typed_misreport_e8_k3, E8, true, false, DROP, false, true, mk_e8);
-h!(#[kani::unwind(5)] splice_forget_e8, splice_h::<E8>(false, true, FORGET, false, false, 9, mk_e8));
-h!(#[kani::unwind(5)] splice_typed_forget_e8, splice_h::<E8>(true, false, FORGET, false, false, 9, mk_e8));
+include!("k2_range.inst.rs");
